@@ -2997,12 +2997,13 @@ func (dsc *dataStoreCommand) sort(sourceKeyName, byPattern, destKeyName string, 
 		}
 	} else {
 		sk, objExists := dsc.getKeyObjectUnlocked(sourceKeyName)
-		if !objExists {
-			output = nativeValueToResp([]any{})
-			return
+		var ss *redisDict
+		if objExists {
+			ss = sk.getSet()
+		} else {
+			// a missing key sorts as an empty collection (STORE then deletes the destination)
+			ss = newRedisDict()
 		}
-
-		ss := sk.getSet()
 		if ss != nil {
 			// convert set (a hash table) into a value array
 			vals = make([]sortVal, 0, ss.count)
